@@ -24,6 +24,7 @@ RULE_TEXT = "one obligation per clause of tmeasure, lmeasure, _gauc and _compare
 
 def rule_paramcheck(ctx):
     R = "C17.PARAMCHECK"
+    ctx.program.func("hierarchy._gauc", R)  # (anchor: the rule reads the arguments of the _gauc calls)
     for q in ("hierarchy.tmeasure", "hierarchy.lmeasure"):
         f = ctx.program.func(q, R)
         s = ctx.S.get(q)
